@@ -218,37 +218,12 @@ func c16KnownID(entry, class, detail string, ft *c16Feat) string {
 	if ft == nil {
 		ft = &c16Feat{}
 	}
-	flagEntry := strings.HasPrefix(entry, "flag.") || strings.HasPrefix(entry, "pflag.") || entry == "dials.Config"
 	switch {
 	case ft.EmbeddedMethods && (strings.Contains(detail, "embedded type with methods not implemented") ||
 		(strings.Contains(detail, "interface conversion: ") && strings.Contains(detail, "*struct {"))):
 		return "P01-embedded-methods"
-	case ft.PtrPtrStructBare && (containsAny(detail, "reflect: Elem of invalid type", "reflect: call of reflect.Value.IsNil on", "reflect: call of reflect.Value.Elem on") || ptrIntoValue(detail)):
-		return "P02-ptrptr-struct-unwrapped"
-	case ft.NamedPtrUnderPtr && strings.Contains(detail, "reflect.Set: value of type **") && strings.Contains(detail, "is not assignable to type *"):
-		return "P03-ptr-to-named-ptr-struct"
-	case ft.PtrPtrScalar && flagEntry && (containsAny(detail, "reflect.Value.OverflowInt on ptr", "reflect.Value.OverflowUint on ptr", "reflect.Value.OverflowFloat on ptr", "reflect.Value.OverflowComplex on ptr") ||
-		(strings.Contains(detail, "reflect.Value.Convert: value of type") && strings.Contains(detail, "cannot be converted to type *"))):
-		return "P04-flag-ptrptr-scalar"
-	case ft.EmptyEnvName && strings.Contains(detail, "empty dialsenv tag"):
-		return "P05-empty-env-name"
-	case ft.BadFlagName && flagEntry && strings.HasPrefix(entry, "flag.") && containsAny(detail, "begins with -", "contains =", "flag \"\""):
-		return "P06-flag-name-rejected"
-	case ft.BadShorthand && strings.HasPrefix(entry, "pflag.") && strings.Contains(detail, "shorthand is more than one ASCII character"):
-		return "P07-pflag-shorthand"
-	case (ft.EmbeddedNonStruct || ft.EmbeddedMethods) && ((strings.Contains(detail, "reflect: NumField of non-struct type") && strings.Contains(detail, "anonymous_flatten_mangler.go")) ||
-		(entry == "transform.ReverseTranslate" && strings.Contains(detail, "reflect: Elem of invalid type") && strings.Contains(detail, "string_casting_mangler.go"))):
-		return "P08-anonflatten-embedded-nonstruct"
-	case (ft.NamedScalar || ft.NonStringKeyMap) && strings.HasPrefix(entry, "decoder/toml") && strings.Contains(detail, "reflect.Value.Convert: value of type") && strings.Contains(detail, "go-toml"):
-		return "P09-toml-convert"
-	case ft.AliasOnEmbedded && strings.Contains(detail, "reflect.StructOf: duplicate field"):
-		return "P10-alias-on-embedded"
-	case ft.NamedPtrToNamed && strings.Contains(detail, "reflect.Set: value of type") && strings.Contains(detail, "is not assignable to type") && strings.Contains(detail, "flatten_mangler.go"):
-		return "P11-named-ptr-to-named-scalar"
 	case ft.EmbeddedNonStruct && strings.Contains(detail, "reflect.StructOf: duplicate field"):
 		return "P13-flatten-embedded-nonstruct-name"
-	case strings.HasPrefix(entry, "decoder/cue") && strings.Contains(detail, "strings: Repeat output length overflow"):
-		return "P14-cue-string-repeat"
 	}
 	return ""
 }
@@ -272,11 +247,12 @@ func ptrIntoValue(detail string) bool {
 	return strings.HasPrefix(rest, from+" @") || rest == from
 }
 
-// typedOutsideModel: the transformer model's values are untyped, so reflect's assignability and
-// zero-value-counts-as-set effects are invisible to it: for types with these features only the
-// implementation is observed (its panics are the listed findings P01–P03, P11)
+// typedOutsideModel: the transformer model's values are untyped, so reflect's zero-value-counts-as-set
+// effect on fields that Pointerify did not wrap (behind **T) is invisible to it, and the struct
+// reflect.StructOf builds around a single embedded text unmarshaler (P01) claims methods it does not have:
+// for types with these features only the implementation is observed
 func (ft *c16Feat) typedOutsideModel() bool {
-	return ft.PtrPtrStructBare || ft.NamedPtrUnderPtr || ft.NamedPtrToNamed || ft.EmbeddedMethods || ft.CommaTag
+	return ft.PtrPtrStructBare || ft.EmbeddedMethods || ft.CommaTag
 }
 
 // c16InModel: the leaf type is inside the parse.String model's resolution (the Tf grammar has no named
@@ -893,6 +869,9 @@ func c16ExecOne(args []string) {
 	_ = devnull
 	switch stream {
 	case "types":
+		if first == 0 {
+			w.regressions()
+		}
 		for i := 0; i < count; i++ {
 			w.oneType(first + i)
 		}
@@ -947,7 +926,7 @@ func checkC16(c *Ctx) {
 		"struct-ish fields: generated anonymous structs by value / * / ** / slice, declared named structs by value, *, **, ***, named pointer types and pointers to them, slices / arrays / maps of structs, embedded structs, embedded *struct, embedded named slices and scalars, embedded types with methods; " +
 		"types whose flattened leaf names collide are discarded (counted). Each type: Pointerify, the env chain's Translate, env.Source.Value with variables for a random half of the leaves (78% well-formed for the leaf's type, 22% malformed: boundary texts, random ASCII, random bytes, mutated), parse.String per leaf, flag and pflag NewSetWithArgs + Value with random arguments, " +
 		"json / yaml / yaml+FlattenAnonymous / toml / cue decoders through static.StringSource with a generated document (30% mutated), two Transformers (shipped chains and random sub-chains) Translate + ReverseTranslate of a random filling, compose of the returned values, dials.Config for the declared corpus. " +
-		"TEXT stream: random bytes, mutated valid inputs and boundary cases into parse.String for every kind, the six collection parsers, every case-conversion decoder and encoder, every flag helper's Set/String/Get, and documents into the four decoders for the declared corpus. " +
+		"REGRESSION stream: one concrete (type, input) per repaired finding (P02-P11, P14), must return a value or an error (and the expected value where the repair makes the shape work). TEXT stream: random bytes, mutated valid inputs and boundary cases into parse.String for every kind, the six collection parsers, every case-conversion decoder and encoder, every flag helper's Set/String/Get, and documents into the four decoders for the declared corpus. " +
 		"Every call under recover + 2 s watchdog; outcome classes ok|err|panic|hang; model outcome class compared for parse.String, the env source, the collection parsers and the case decoders (ASCII, kinds inside the models). non-trivial: a type with >= 2 leaves / a text of >= 2 bytes; distinct = by type string + variables (per chunk), by text"
 	// --replay FILE: the run is a deterministic function of (seed, tier): re-run with the recorded ones
 	if c.Replay != "" {
@@ -1011,6 +990,11 @@ func checkC16(c *Ctx) {
 	perX := (nTexts + workers*2 - 1) / (workers * 2)
 	split("types", nTypes, perT)
 	split("texts", nTexts, perX)
+	type pendingFinding struct {
+		f     Finding
+		extra int
+	}
+	var pending []pendingFinding
 	var mu sync.Mutex
 	var wg sync.WaitGroup
 	sem := make(chan struct{}, workers)
@@ -1055,22 +1039,36 @@ func checkC16(c *Ctx) {
 				}
 			}
 			mu.Unlock()
+			mu.Lock()
 			for _, f := range ch.Findings {
-				if f.Kind == "known" {
-					mu.Lock()
-					extra := ch.Known[f.KnownID] - 1
-					mu.Unlock()
-					res.Add(f)
-					res.mu.Lock()
-					res.KnownSeen[f.KnownID] += extra
-					res.mu.Unlock()
-					continue
-				}
-				res.Add(f)
+				pending = append(pending, pendingFinding{f, ch.Known[f.KnownID] - 1})
 			}
+			mu.Unlock()
 		}(ji, j)
 	}
 	wg.Wait()
+	// the result keeps at most 200 findings: regressions of repaired findings first, then violations,
+	// disagreements, known findings
+	rank := func(f Finding) int {
+		switch {
+		case f.Kind == "violation" && strings.Contains(f.What, "regression"):
+			return 0
+		case f.Kind == "violation":
+			return 1
+		case f.Kind == "disagreement":
+			return 2
+		}
+		return 3
+	}
+	sort.SliceStable(pending, func(a, b int) bool { return rank(pending[a].f) < rank(pending[b].f) })
+	for _, pf := range pending {
+		res.Add(pf.f)
+		if pf.f.Kind == "known" && pf.extra > 0 {
+			res.mu.Lock()
+			res.KnownSeen[pf.f.KnownID] += pf.extra
+			res.mu.Unlock()
+		}
+	}
 	res.Notes = append(res.Notes, fmt.Sprintf("%d chunks in %d worker processes; %d crashed; discarded for duplicate flattened leaf names: %d; rejected by reflect.StructOf in the generator: %d",
 		len(jobs), workers, crashed, res.Dist["generator/discarded-duplicate-flattened-names"], res.Dist["generator/structof-rejected"]))
 	// the driver requests are made by the children
